@@ -27,7 +27,9 @@ def shapes(tier):
                     continue
                 for ncols in ((1, 3) if tier == "quick" else (1, 2, 5, 20)):
                     for kind in ("exact", "data"):
-                        out.append('[l |-> %d, r |-> %d, br |-> %d, m |-> %d, ncols |-> %d, kind |-> "%s"]' % (l, r, br, m, ncols, kind))
+                        for cut in ((0, 1) if m >= 2 else (0,)):
+                            out.append('[l |-> %d, r |-> %d, br |-> %d, m |-> %d, ncols |-> %d, kind |-> "%s", cut |-> %d]'
+                                       % (l, r, br, m, ncols, kind, cut))
     return out
 
 
@@ -87,7 +89,7 @@ def check_case(col, t, seed):
     br, ncols = sh["br"], sh["ncols"]
     if H.shape != (rows, cols):
         raise core.MachineryFailure(f"generated Hankel matrix has shape {H.shape}, specification says {(rows, cols)}")
-    ordmax = 2 * sh["m"]
+    ordmax = out["ordmax"]          # below the rank of H when the shape is 'cut'
     sv = np.linalg.svd(H, compute_uv=False)
     gaps = -np.diff(sv[: ordmax + 1])
     if np.min(gaps / sv[: len(gaps)]) < 1e-3:
